@@ -407,6 +407,20 @@ func cmdCheck(g *Gen, prop, tier, evid, replayDir, knownPath string, loadSecs fl
 			boundedResults[prop] = brs
 			for _, br := range brs {
 				if v, _ := br["violations"].(float64); v > 0 {
+					// violations whose class is a recorded finding are reported as such; any other class is a violation
+					classes, _ := br["violation_classes"].(map[string]any)
+					unknownClass := len(classes) == 0
+					for cl := range classes {
+						kf, isKnown := knownBy["bounded."+fmt.Sprint(br["name"])+"#"+cl]
+						if isKnown {
+							fmt.Printf("KNOWN-FINDING: property=%s bounded.%v [%s]: %s\n", prop, br["name"], cl, kf.What)
+						} else {
+							unknownClass = true
+						}
+					}
+					if !unknownClass {
+						continue
+					}
 					exit = 1
 					d := filepath.Join(replayDir, prop)
 					os.MkdirAll(d, 0o755)
